@@ -48,6 +48,14 @@ ColSrc(q) == PosIn(Tr.cb, Tr.cx[q])
 NewRow(c) == IF Has(Tr.rx, Tr.rb[c + 1]) THEN PosIn(Tr.rx, Tr.rb[c + 1]) - 1 ELSE -1
 NewCol(c) == IF Has(Tr.cx, Tr.cb[c + 1]) THEN PosIn(Tr.cx, Tr.cb[c + 1]) - 1 ELSE -1
 
+\* Safe access: an output of the base run that is too short for the display order the
+\* base run reported, or that names a position outside it, rejects the trace (verdicts
+\* are total: a malformed recording is a REJECT, never an evaluation error).
+InRows(e, p)    == RowSrc(p) <= Len(e.base)
+InCols(v, q)    == ColSrc(q) <= Len(v)
+ColPosOK(S)     == \A c \in S : c + 1 \in 1..Len(Tr.cb)
+RowPosOK(S)     == \A c \in S : c + 1 \in 1..Len(Tr.rb)
+
 ReindexOK(e) ==
   CASE e.op = "orders" -> OrdersOK
     [] e.op = "scalar" -> e.xf = e.base
@@ -55,28 +63,35 @@ ReindexOK(e) ==
          /\ Len(e.xf) = Len(Tr.rx)
          /\ \A p \in 1..Len(e.xf) :
               /\ Len(e.xf[p]) = Len(Tr.cx)
-              /\ \A q \in 1..Len(Tr.cx) : e.xf[p][q] = e.base[RowSrc(p)][ColSrc(q)]
+              /\ \A q \in 1..Len(Tr.cx) :
+                   /\ InRows(e, p) /\ InCols(e.base[RowSrc(p)], q)
+                   /\ e.xf[p][q] = e.base[RowSrc(p)][ColSrc(q)]
     [] e.op = "rowvec" ->
          /\ Len(e.xf) = Len(Tr.rx)
-         /\ \A p \in 1..Len(e.xf) : e.xf[p] = e.base[RowSrc(p)]
+         /\ \A p \in 1..Len(e.xf) : InRows(e, p) /\ e.xf[p] = e.base[RowSrc(p)]
     [] e.op = "colvec" ->
          /\ Len(e.xf) = Len(Tr.cx)
-         /\ \A q \in 1..Len(e.xf) : e.xf[q] = e.base[ColSrc(q)]
+         /\ \A q \in 1..Len(e.xf) : InCols(e.base, q) /\ e.xf[q] = e.base[ColSrc(q)]
     [] e.op = "rowpos" ->      \* a list of row positions, renumbered
-         SetOf(e.xf) = {NewRow(c) : c \in SetOf(e.base)} \ {-1}
+         /\ RowPosOK(SetOf(e.base))
+         /\ SetOf(e.xf) = {NewRow(c) : c \in SetOf(e.base)} \ {-1}
     [] e.op = "colpos" ->
-         SetOf(e.xf) = {NewCol(c) : c \in SetOf(e.base)} \ {-1}
+         /\ ColPosOK(SetOf(e.base))
+         /\ SetOf(e.xf) = {NewCol(c) : c \in SetOf(e.base)} \ {-1}
     [] e.op = "colposvec" ->   \* one set of column positions per column
          /\ Len(e.xf) = Len(Tr.cx)
          /\ \A q \in 1..Len(Tr.cx) :
-              SetOf(e.xf[q]) = {NewCol(c) : c \in SetOf(e.base[ColSrc(q)])} \ {-1}
+              /\ InCols(e.base, q) /\ ColPosOK(SetOf(e.base[ColSrc(q)]))
+              /\ SetOf(e.xf[q]) = {NewCol(c) : c \in SetOf(e.base[ColSrc(q)])} \ {-1}
     [] e.op = "colposmat" ->   \* a matrix whose cells are sets of column positions
          /\ Len(e.xf) = Len(Tr.rx)
          /\ \A p \in 1..Len(e.xf) :
               /\ Len(e.xf[p]) = Len(Tr.cx)
               /\ \A q \in 1..Len(Tr.cx) :
-                   SetOf(e.xf[p][q])
-                     = {NewCol(c) : c \in SetOf(e.base[RowSrc(p)][ColSrc(q)])} \ {-1}
+                   /\ InRows(e, p) /\ InCols(e.base[RowSrc(p)], q)
+                   /\ ColPosOK(SetOf(e.base[RowSrc(p)][ColSrc(q)]))
+                   /\ SetOf(e.xf[p][q])
+                        = {NewCol(c) : c \in SetOf(e.base[RowSrc(p)][ColSrc(q)])} \ {-1}
     [] OTHER -> FALSE
 
 Transposed(a, b) ==
